@@ -129,6 +129,13 @@ fn diff(got: &[Rec], want: &[Rec]) -> String {
 }
 
 pub fn run_case(case: &WalReplay, idx: u64) -> RunResult {
+    let fds = util::open_fds();
+    let r = run_case_inner(case, idx);
+    util::close_fds_except(&fds);
+    r
+}
+
+fn run_case_inner(case: &WalReplay, idx: u64) -> RunResult {
     let mut counters: BTreeMap<String, u64> = BTreeMap::new();
     let mut bump = |k: &str, n: u64| *counters.entry(k.to_string()).or_insert(0) += n;
     let mut fp = 0xcbf29ce484222325u64;
